@@ -288,6 +288,24 @@ def _from_box3(m, fl, e, at, base, depth=0):
                 if not ok:
                     return False, f"helper {h.name}() returns `{short(r.value, 40)}` on one path, which is not the first three components of the box it was given"
             return True, ""
+    if isinstance(e, ast.Call) and isinstance(e.func, ast.Attribute) and isinstance(e.func.value, ast.Name) and e.func.value.id == "self" and len(e.args) == 1 and not e.keywords \
+            and isinstance(e.args[0], ast.Name) and base == e.args[0].id + ".box":
+        # a method of the order-parameter class that is handed the system:  self.helper(system)
+        cands = [g for q, g in m.funcs.items() if q.endswith("." + e.func.attr)]
+        if cands:
+            for h in cands:
+                hp = [a.arg for a in h.args.args]
+                if len(hp) < 2:
+                    return False, f"{h.name}() takes no system"
+                hfl = flow_of(h)
+                rets = [r for r in walk_local(h) if isinstance(r, ast.Return)]
+                if not rets:
+                    return False, f"{h.name}() returns nothing"
+                for r in rets:
+                    ok, why = _from_box3(m, hfl, r.value, hfl.cfg.node_of(r), hp[1] + ".box", depth + 1)
+                    if not ok:
+                        return False, f"method {h.name}() returns `{short(r.value, 40)}`, which is not (on every path) the first three components of the box of the system it is given now - e.g. a value kept from an earlier call"
+            return True, ""
     if isinstance(e, ast.Name):
         srcs = fl.sources(e, at)
         if not srcs:
@@ -480,7 +498,13 @@ def r208(ctx, classes):
                 if isinstance(cmp_.left, ast.Call) and last_name(cmp_.left) == "len" and len(cmp_.ops) == 1 and isinstance(cmp_.ops[0], ast.NotEq) and isinstance(cmp_.comparators[0], ast.Constant):
                     n = cmp_.comparators[0].value
         try:
-            viols, npaths, nret = G.analyse_calculate(calc, n)
+            # helper methods of the class and of its bases in the module (handed the system)
+            meths = {}
+            modm = calc._mod
+            for bq, bf in modm.funcs.items():
+                if "." in bq and bf.name not in ("calculate", "__init__") and len(bf.args.args) == 2:
+                    meths.setdefault(bf.name, bf)
+            viols, npaths, nret = G.analyse_calculate(calc, n, meths)
         except G.Undecidable as exc:
             raise AnalysisError(f"R-20.8: {name}.calculate is outside the modelled fragment: {exc}")
         if viols:
@@ -709,6 +733,10 @@ VARIANTS = [
     B("c20-distancevel-raw-box", ORDERP, "            box = np.array(system.box[:3])\n            delta = pbc_dist_coordinate(delta, box)\n        lamb = np.sqrt(np.dot(delta, delta))\n        # Add the velocity", "            delta = pbc_dist_coordinate(delta, system.box)\n        lamb = np.sqrt(np.dot(delta, delta))\n        # Add the velocity", "R-20.2", control=True, why="pre-fix D9"),
     K("c20-keep-box-helper", ORDERP, "            box = np.array(system.box[:3])\n            delta = pbc_dist_coordinate(delta, box)\n        lamb = np.sqrt(np.dot(delta, delta))\n        return [lamb]", "            box = _box_lengths(system.box)\n            delta = pbc_dist_coordinate(delta, box)\n        lamb = np.sqrt(np.dot(delta, delta))\n        return [lamb]",
       also=[(ORDERP, "class OrderParameter:\n", "def _box_lengths(box):\n    box = np.asarray(box, dtype=float)\n    return np.array(box[:3])\n\n\nclass OrderParameter:\n")], why="a correct helper must stay silent (seed C20_f used a helper)"),
+    K("c20-keep-box-method-helper", ORDERP, "            box = np.array(system.box[:3])\n            delta = pbc_dist_coordinate(delta, box)\n        lamb = np.sqrt(np.dot(delta, delta))\n        return [lamb]", "            box = self.cell_lengths(system)\n            delta = pbc_dist_coordinate(delta, box)\n        lamb = np.sqrt(np.dot(delta, delta))\n        return [lamb]",
+      also=[(ORDERP, "    @abstractmethod\n    def calculate(self, system: System) -> List[float]:", "    def cell_lengths(self, system):\n        return np.array(system.box[:3], dtype=float)\n\n    @abstractmethod\n    def calculate(self, system: System) -> List[float]:")], why="a correct method helper must stay silent (seed C20_g used one)"),
+    B("c20-box-lengths-cached-from-first-frame", ORDERP, "            box = np.array(system.box[:3])\n            delta = pbc_dist_coordinate(delta, box)\n        lamb = np.sqrt(np.dot(delta, delta))\n        return [lamb]", "            box = self.cell_lengths(system)\n            delta = pbc_dist_coordinate(delta, box)\n        lamb = np.sqrt(np.dot(delta, delta))\n        return [lamb]", "R-20.2",
+      also=[(ORDERP, "    @abstractmethod\n    def calculate(self, system: System) -> List[float]:", "    def cell_lengths(self, system):\n        if getattr(self, \"_cell\", None) is None:\n            self._cell = np.array(system.box[:3], dtype=float)\n        return self._cell\n\n    @abstractmethod\n    def calculate(self, system: System) -> List[float]:")], why="seeded C20_g"),
     B("c20-box-helper-wrong-guard", ORDERP, "            box = np.array(system.box[:3])\n            delta = pbc_dist_coordinate(delta, box)\n        lamb = np.sqrt(np.dot(delta, delta))\n        return [lamb]", "            box = _box_lengths(system.box)\n            delta = pbc_dist_coordinate(delta, box)\n        lamb = np.sqrt(np.dot(delta, delta))\n        return [lamb]", "R-20.2",
       also=[(ORDERP, "class OrderParameter:\n", "def _box_lengths(box):\n    box = np.asarray(box, dtype=float)\n    if box.size > 3 and np.any(box[:3]):\n        return np.full(3, np.inf)\n    return np.array(box[:3])\n\n\nclass OrderParameter:\n")], why="seeded C20_f"),
     B("c20-dihedral-raw-box", ORDERP, "            box = np.array(system.box[:3])\n            vector1 = pbc_dist_coordinate(vector1, box)", "            box = np.array(system.box)\n            vector1 = pbc_dist_coordinate(vector1, box)", "R-20.2"),
